@@ -71,7 +71,9 @@ def command_loop(local):
                     context[k] = v
                 write_line({"out": {}})
             elif "get" in command:
-                write_line({"out": coalesce(local.get(command["get"]), context.get(command["get"]))})
+                name = command["get"]
+                # A LOCAL THAT IS None (OR FALSE, OR EMPTY) STILL HIDES THE GLOBAL OF THE SAME NAME
+                write_line({"out": local[name] if name in local else context.get(name)})
             elif "stop" in command:
                 write_line({"out": {}})
                 please_stop.go()
